@@ -35,6 +35,60 @@ def Arguments.paramNames : Arguments → List String
 /-- marks "inside a lambda / comprehension" on the list of bound names (`comp_stack` is not empty): not an identifier -/
 def compMark : String := ""
 
+/-- marks "inside a lambda" (a `PendingLambda` is on `comp_stack`): not an identifier either -/
+def lamMark : String := " "
+
+mutual
+  /-- the names an assignment expression binds in the scope of a lambda body (PEP 572): those of a nested lambda's
+      body are that lambda's own, its defaults are evaluated here; comprehensions bind in the containing scope -/
+  def walrusNames : Expr → List String
+    | .name _ | .const _ => []
+    | .namedExpr t v => t :: walrusNames v
+    | .yield_ v => walrusNamesO v
+    | .yieldFrom v => walrusNames v
+    | .await v => walrusNames v
+    | .lambda (.mk _ _ _ _ kd _ ds) _ => walrusNamesL ds ++ walrusNamesOL kd
+    | .listComp e gs => walrusNames e ++ walrusNamesC gs
+    | .setComp e gs => walrusNames e ++ walrusNamesC gs
+    | .generatorExp e gs => walrusNames e ++ walrusNamesC gs
+    | .dictComp k v gs => walrusNames k ++ walrusNames v ++ walrusNamesC gs
+    | .joinedStr vs => walrusNamesL vs
+    | .formattedValue v _ s => walrusNames v ++ walrusNamesO s
+    | .list es => walrusNamesL es
+    | .tuple es => walrusNamesL es
+    | .set es => walrusNamesL es
+    | .dict items => walrusNamesD items
+    | .starred v => walrusNames v
+    | .attribute v _ => walrusNames v
+    | .subscript v s => walrusNames v ++ walrusNames s
+    | .slice a b c => walrusNamesO a ++ walrusNamesO b ++ walrusNamesO c
+    | .call f as ks => walrusNames f ++ walrusNamesL as ++ walrusNamesK ks
+    | .binOp a _ b => walrusNames a ++ walrusNames b
+    | .boolOp _ vs => walrusNamesL vs
+    | .unaryOp _ v => walrusNames v
+    | .compare l _ cs => walrusNames l ++ walrusNamesL cs
+    | .ifExp t b e => walrusNames t ++ walrusNames b ++ walrusNames e
+  def walrusNamesL : List Expr → List String
+    | [] => []
+    | e :: es => walrusNames e ++ walrusNamesL es
+  def walrusNamesO : Option Expr → List String
+    | none => []
+    | some e => walrusNames e
+  def walrusNamesOL : List (Option Expr) → List String
+    | [] => []
+    | none :: es => walrusNamesOL es
+    | some e :: es => walrusNames e ++ walrusNamesOL es
+  def walrusNamesD : List DictItem → List String
+    | [] => []
+    | .mk k v :: its => walrusNamesO k ++ walrusNames v ++ walrusNamesD its
+  def walrusNamesK : List Keyword → List String
+    | [] => []
+    | .mk _ v :: ks => walrusNames v ++ walrusNamesK ks
+  def walrusNamesC : List Comp → List String
+    | [] => []
+    | .mk t i ifs _ :: gs => walrusNames t ++ walrusNames i ++ walrusNamesL ifs ++ walrusNamesC gs
+end
+
 def refuse (k : String) : Err := .runtimeError s!"Unable to convert node '{k}'"
 
 mutual
@@ -44,6 +98,8 @@ mutual
     | .const c => .ok (.const c)
     | .namedExpr t v => do
         let v' ← transf n bound v
+        -- inside a lambda the target is a local variable of that lambda
+        if bound.contains lamMark then pure (.namedExpr t v') else do
         let r ← n.getAssign t v'
         match r with
         | .namedExpr .. => pure r
@@ -56,7 +112,7 @@ mutual
     | .lambda (.mk po as va ko kd kw ds) body => do
         let ds' ← transfList n bound ds
         let kd' ← transfOptList n bound kd
-        let body' ← transf n (compMark :: (Arguments.paramNames (.mk po as va ko kd kw ds) ++ bound)) body
+        let body' ← transf n (lamMark :: (Arguments.paramNames (.mk po as va ko kd kw ds) ++ walrusNames body ++ bound)) body
         pure (.lambda (.mk po as va ko kd' kw ds') body')
     | .listComp elt gens => do
         let names ← compsTargetNames gens
